@@ -70,12 +70,12 @@ Print Assumptions mask_partition.
    - OutErr e: e = ValueError, and either the shapes are not broadcastable or func(fills, ndarrays) is not
      constant while the ndarrays do not have the full shape.  (dense_mix_rule) *)
 Theorem elemwise_den (V : Type) (veqb : V -> V -> bool) (vzero : V) (f : list V -> V)
-        (srt : list Z -> list nat) :
+        (scal : nat -> bool) (srt : list Z -> list nat) :
   is_argsort srt -> (forall x y, veqb x y = true <-> x = y) ->
   forall args : list (operand V),
   Forall (op_ok V) args -> existsb (is_sparse V) args = true ->
-  elemwise_post V veqb vzero f args (elemwise V veqb vzero f srt args).
-Proof. intros Hs. exact (elemwise_den_proof V veqb vzero srt Hs f). Qed.
+  elemwise_post V veqb vzero f args (elemwise_sc V veqb vzero f scal srt args).
+Proof. intros Hs. exact (elemwise_sc_den_proof V veqb vzero scal srt Hs f). Qed.
 Print Assumptions elemwise_den.
 
 (* (5) programs: for every expression tree over canonical sparse arrays and scalars (unary, binary,
@@ -109,12 +109,12 @@ Print Assumptions astype_copy_fresh.
    unspecified.  [is_argsort srt]: srt returns, for every key list, SOME permutation of the positions that
    sorts the keys.  Every theorem above is stated for an arbitrary such srt; and the result does not depend
    on the choice at all (the stable [argsort] used by the correspondence is one instance). *)
-Theorem argsort_irrelevant (V : Type) (veqb : V -> V -> bool) (vzero : V) (f : list V -> V)
+Theorem argsort_irrelevant (V : Type) (veqb : V -> V -> bool) (vzero : V) (f : list V -> V) (scal : nat -> bool)
         (s1 s2 : list Z -> list nat) (args : list (operand V)) :
   (forall x y, veqb x y = true <-> x = y) ->
   is_argsort s1 -> is_argsort s2 -> Forall (op_ok V) args ->
-  elemwise V veqb vzero f s1 args = elemwise V veqb vzero f s2 args.
-Proof. intros He. exact (elemwise_sort_irrelevant_proof V veqb vzero f He s1 s2 args). Qed.
+  elemwise_sc V veqb vzero f scal s1 args = elemwise_sc V veqb vzero f scal s2 args.
+Proof. intros He. exact (elemwise_sort_irrelevant_proof V veqb vzero scal f He s1 s2 args). Qed.
 Print Assumptions argsort_irrelevant.
 
 Theorem stable_argsort_is_argsort : is_argsort argsort.
@@ -123,31 +123,31 @@ Print Assumptions stable_argsort_is_argsort.
 
 (* (8) the written-out same-shape binary model of theorem (3) IS the general model on [a; b]
    (operands with at least one axis; 0-d sparse operands are densified first by the general code). *)
-Theorem elemwise2_is_elemwise (V : Type) (veqb : V -> V -> bool) (vzero : V) (f : list V -> V)
+Theorem elemwise2_is_elemwise (V : Type) (veqb : V -> V -> bool) (vzero : V) (f : list V -> V) (scal : nat -> bool)
         (srt : list Z -> list nat) (a b : coo V) :
   (forall x y, veqb x y = true <-> x = y) ->
   is_argsort srt -> canonical V a -> canonical V b -> shape_ok (c_shape a) ->
   c_shape a = c_shape b -> c_shape a <> [] ->
-  elemwise V veqb vzero f srt [OSp a; OSp b] = OutSparse (elemwise2 V veqb vzero f a b).
-Proof. intros He. exact (elemwise2_is_elemwise_proof V veqb vzero f He srt a b). Qed.
+  elemwise_sc V veqb vzero f scal srt [OSp a; OSp b] = OutSparse (elemwise2 V veqb vzero f a b).
+Proof. intros He. exact (elemwise2_is_elemwise_proof V veqb vzero scal f He srt a b). Qed.
 Print Assumptions elemwise2_is_elemwise.
 
 (* (9) operands in any sparse format and the final asformat(out_type): every sparse operand is ANY
    representation (COO, GCXS with any valid compressed axes, DOK) reachable by conversions from a
-   canonical COO array (C05's chain invariant [inv]; 0-d DOK excluded = finding zero_dim_from_iter);
+   canonical COO array (C05's chain invariant [inv]; 0-d DOKs included since round 7);
    the output format is chosen by the chain regenerated from _Elemwise.__init__ (Gen/S_umath.v) and the
-   result converted by C05's [convert].  Under the two domain clauses of that conversion ([api_hop_ok]:
-   asformat accepts the hop for the result's shape; no 0-d result through DOK) the returned array, in its
+   result converted by C05's [convert].  Under the domain clause of that conversion ([api_hop_ok]:
+   asformat accepts the hop for the result's shape) the returned array, in its
    final format, is well-formed, has the broadcast shape, and its dense meaning is f of the operands' dense
    meanings at every index; dense results are NumPy's; errors are ValueError from the core or no sparse
    operand. *)
 Theorem elemwise_api_den (V : Type) (veqb : V -> V -> bool) (add : V -> V -> V) (vzero : V) (f : list V -> V)
-        (srt : list Z -> list nat) :
+        (scal : nat -> bool) (srt : list Z -> list nat) :
   (forall x y, veqb x y = true <-> x = y) -> is_argsort srt ->
   forall args : list (api_arg V),
-  Forall (arg_ok V veqb) args -> api_hop_ok V veqb add vzero f srt args ->
-  api_post V veqb add vzero f srt args (elemwise_api V veqb add vzero f srt args).
-Proof. exact (elemwise_api_den_proof V veqb add vzero f srt). Qed.
+  Forall (arg_ok V veqb) args -> api_hop_ok V veqb add vzero f scal srt args ->
+  api_post V veqb add vzero f scal srt args (elemwise_api V veqb add vzero f scal srt args).
+Proof. exact (elemwise_api_den_proof V veqb add vzero f scal srt). Qed.
 Print Assumptions elemwise_api_den.
 
 (* (10) programs with in-place operators / out= / astype over a store of objects.  [np_exec]: NumPy's
